@@ -128,4 +128,8 @@ func (*Typechecker).VisitListLit [C04, C14]
   at LV after call Evaluate
   ensures reached(LV) && expr.Values == nil && expr.Count != nil && expr.Value != nil ==>
             t.latestReturnedType == box(mk[ddptypes.ListType](at(LV, t.latestReturnedType)))
+
+// field access on a Kombination: whatever the symbol table returns for the type's name, the checker must not crash on it
+func (*Typechecker).checkFieldAccess [C03]
+  safe assert
 @*/
